@@ -659,7 +659,7 @@ def run(ctx):
                     back = SyncEntry(dummy, None, (sid, b))
                     be = real_entry(back)
                     real = [1, entry_sx(be, ft), w, 1 if back.is_trash else 0,
-                            1 if (back[0].changed or back[1].changed) else 0]
+                            1 if any(back[s_].changed and back[s_].oid is not None for s_ in (0, 1)) else 0]
                     stats["codec"]["survive"] += 1
                     d = synced_diffs(e, be)
                     wf = py_wf(e)
@@ -714,7 +714,7 @@ def run(ctx):
             try:
                 back = SyncEntry(dummy, None, (sid, b))
                 real = [1, entry_sx(real_entry(back), ft), 1 if back.is_trash else 0,
-                        1 if (back[0].changed or back[1].changed) else 0]
+                        1 if any(back[s_].changed and back[s_].oid is not None for s_ in (0, 1)) else 0]
                 stats["literal"]["loads"] += 1
                 if isinstance(row, dict):
                     ik = repr(row.get("ignored", "<absent>"))[:12]
